@@ -1,1 +1,29 @@
-fn main() { eprintln!("not built yet"); std::process::exit(2) }
+//! E5 `admin`: column administration / option checks (C17) and migration (C20).
+
+mod c17;
+mod c20;
+mod content;
+mod opts;
+mod util;
+
+use pv::{run::main_entry, Ctx, Report, Spec, Tier};
+
+fn spec_for(prop: &str, _tier: Tier) -> Option<Spec> {
+	match prop {
+		"C17" => Some(c17::spec()),
+		"C20" => Some(c20::spec()),
+		_ => None,
+	}
+}
+
+fn shard(ctx: &Ctx, rep: &mut Report) {
+	match ctx.prop.as_str() {
+		"C17" => c17::run(ctx, rep),
+		"C20" => c20::run(ctx, rep),
+		_ => unreachable!(),
+	}
+}
+
+fn main() {
+	main_entry(spec_for, shard)
+}
